@@ -344,7 +344,7 @@ theorem bulk_reads_what_the_generic_path_reads (mk : String → NR) (env : Env) 
     (hfit : n * (3 + sz) ≤ usizeMax) (hbytes : n * sz ≤ s2.input.length) :
     (bulkElems renv vis (.prim p) fl p n s2).map (fun q => (q.1, Flags.clear)) =
       genericElems (deN mk env tl renv (k + 1)) vis (.prim p) fl (.prim p) (.prim p) n s2 := by
-  have hacc : acceptsPrimitive renv (renv.length + 1) (.prim p) p = some true := by simp [acceptsPrimitive]
+  have hacc : acceptsPrimitive renv (resolveDepth renv) (.prim p) p = some true := by simp [acceptsPrimitive, resolveDepth]
   unfold bulkElems genericElems
   simp only [hs, Option.getD_some, hacc]
   rw [if_neg (by omega), addCost_unmetered_ok s2 hu]
